@@ -226,7 +226,9 @@ CLAIMED['C10'] = dict(
          'wait_for_events(timeout, datacb, fdcb) (Hoare loop rule): a waiter is fired at most once per event, only for a direction the kernel '
          'reported AND that is still registered, with that direction\'s data; fired one-shot directions - exactly those - are disarmed.  '
          'KernelSocketStream::read/write/readv/writev: all partial transfers of one call share one deadline = entry time + stream timeout.  '
-         'BufStepV (vectored step): consumes exactly the transferred bytes, drops only empty elements, and continues only with a non-empty first element.',
+         'BufStepV (vectored step): consumes exactly the transferred bytes, drops only empty elements, and continues only with a non-empty first element.  '
+         'A native program moves random byte strings through real Unix-domain socket streams over the epoll engine (one vCPU): exactly-once ordered '
+         'delivery for random call segmentations, the whole-call stream timeout, both directions of one descriptor.',
     note=TRUST + ' NOT decided: exactly-once ordered bytes end to end (kernel sockets), engine/scheduler interplay as a history, '
          'do_epoll_wait\'s retry loop, epoll-ng / io_uring engines.',
     technique='deductive verification: Hoare loop rule + loop-free full-domain CBMC harnesses on mechanically lowered real code, system calls as stubs',
